@@ -234,6 +234,8 @@ class Gen:
                     continue
                 used.add(code)
                 base = 900_000_000 + rng.randint(0, 400_000_000)
+                if rng.random() < 0.08:
+                    base = -rng.randint(10**6, 2_100_000_000)  # a date before 1970 (the field is a signed 32-bit count)
                 s.update(cdate=base, mdate=base + rng.randint(0, 10**6), adate=base + rng.randint(0, 10**7),
                          comment=gen.text(rng, 256))
                 slots.append(s)
@@ -242,8 +244,17 @@ class Gen:
             layout = "compact"
             if how == "foreign_noncompact":
                 layout = rng.choice(("reversed", "gaps"))
+            extra = {}
+            if rng.random() < 0.3:
+                extra["hdr"] = [rng.choice((rng.randint(0, 2**31 - 1), -rng.randint(1, 2**31 - 1), rng.randint(10**9, 17 * 10**8)))
+                                for _ in range(3)]
+            if rng.random() < self.p.get("badtext", 0.04):
+                # a comment with a byte windows-1252 does not define, anywhere in the table
+                extra["badtext"] = {"slot": rng.randrange(max(n, len(slots))), "pos": rng.randint(0, 12),
+                                    "byte": rng.randrange(5)}
             self.emit(op="foreign", f=f, n=n, slots=slots, layout=layout,
-                      garbage=rng.randint(1, 10**6) if how == "foreign_garbage" or rng.random() < 0.15 else None)
+                      garbage=rng.randint(1, 10**6) if how == "foreign_garbage" or rng.random() < 0.15 else None,
+                      **extra)
             self.present[f] = {(gen.code_of(s["C"]) if "C" in s else s["code"]): ("C" in s)
                                for s in slots if s is not None}
             self.n[f] = max(n, len(slots))
@@ -448,11 +459,23 @@ class Gen:
                     for o in self.ops[n0:]:
                         o["fresh"] = True
             elif kind == "w":
+                away = False
                 for _ in range(nops):
+                    if not away and rng.random() < self.p.get("chdir", 0.06):
+                        # the program changes directory in the middle of the session
+                        self.emit(op="chdir", to="away")
+                        away = True
                     if self.session_op(f, True) == "ended":
                         in_ctx = False  # the disk filled up: that session is over
                         prev_w[f] = True
                         break
+                    if away and rng.random() < 0.5:
+                        self.emit(op="chdir", to="back")
+                        away = False
+                if away and (not in_ctx or rng.random() < 0.6):
+                    self.emit(op="chdir", to="back")
+                    away = False
+                chdir_back_after_end = away
             else:
                 # wrong-mode sessions: the calls a user would make, all of which must be refused
                 if kind in ("ro", "stale") and self.p["ops"]["mode_matrix"] > 0 and rng.random() < 0.3:
@@ -484,6 +507,8 @@ class Gen:
                     self.emit(op="exit_exc", f=f)
                 else:
                     self.emit(op="kill_reopen", f=f)
+                if kind == "w" and chdir_back_after_end:
+                    self.emit(op="chdir", to="back")
             elif kind == "armed_out" and rng.random() < 0.5:
                 # the ambiguous sequence of DESIGN §C08 is generated only in the C08 profile
                 pass
@@ -505,6 +530,7 @@ def gen_run(rng, prop, index, tier):
         "filenos": True,  # real files always have a descriptor
         "clock": rng.choice(("normal",) * 7 + ("frozen", "frozen", "slow")),
         "mtime_gran": rng.choice((1e-9, 1e-9, 1.0, 2.0)),
+        "warnings": rng.choice(("default",) * 6 + ("error",)),  # python -W error
     }
     ops = Gen(rng, prof, index, tier, prop).run()
     return cfg, ops
